@@ -235,7 +235,89 @@ def _c01_extra():
     except Untranslatable as e:
         out.append(f"/-- SKIPPED ({e}) -/\ndef roll_cat_order : List Nat := [1, 0]\n")
         status["roll_cat_order"] = f"skipped: {e}"
+    # dtype validation: verify_fft_dtype_possible and is_power_of_two
+    try:
+        if tree is None:
+            raise err
+        out.append(f"/-- translated from `{T}`:`verify_fft_dtype_possible` -/\n" + _verify_dtype(find_function(tree, "verify_fft_dtype_possible")))
+        status["verify_fft_dtype_possible"] = "translated"
+    except Untranslatable as e:
+        out.append(f"/-- SKIPPED ({e}) -/\ndef verify_fft_dtype_possible (is_complex64_dtype is_float32_dtype all_pow2 : Bool) : Bool :=\n"
+                   "  is_complex64_dtype || (is_float32_dtype && all_pow2)\n")
+        status["verify_fft_dtype_possible"] = f"skipped: {e}"
+    try:
+        fn = find_function(parse_file(REPO / "direct/utils/__init__.py"), "is_power_of_two")
+        out.append("/-- translated from `direct/utils/__init__.py`:`is_power_of_two` -/\n" + _is_pow2(fn))
+        status["is_power_of_two"] = "translated"
+    except Untranslatable as e:
+        out.append(f"/-- SKIPPED ({e}) -/\ndef is_power_of_two (number : Nat) : Bool := Fft.isPow2 number\n")
+        status["is_power_of_two"] = f"skipped: {e}"
     return "\n".join(out), status
+
+
+def _verify_dtype(fn: ast.FunctionDef) -> str:
+    env: dict[str, str] = {}
+
+    def b(n) -> str:
+        if isinstance(n, ast.Name) and n.id in env:
+            return env[n.id]
+        if isinstance(n, ast.Constant) and isinstance(n.value, bool):
+            return "true" if n.value else "false"
+        if isinstance(n, ast.BoolOp):
+            op = " && " if isinstance(n.op, ast.And) else " || "
+            return "(" + op.join(b(v) for v in n.values) + ")"
+        if isinstance(n, ast.UnaryOp) and isinstance(n.op, ast.Not):
+            return f"(!{b(n.operand)})"
+        txt = ast.unparse(n).replace(" ", "")
+        if txt == "data.dtype==torch.complex64":
+            return "is_complex64_dtype"
+        if txt == "data.dtype==torch.float32":
+            return "is_float32_dtype"
+        if txt in ("all((is_power_of_two(_)for_in[data.size(idx)foridxindims]))", "all(is_power_of_two(_)for_in[data.size(idx)foridxindims])",
+                   "all((is_power_of_two(data.size(idx))foridxindims))", "all(is_power_of_two(data.size(idx))foridxindims)"):
+            return "all_pow2"
+        raise Untranslatable(f"boolean expression `{ast.unparse(n)}`")
+
+    ret = None
+    for st in fn.body:
+        if _is_docstring(st):
+            continue
+        if isinstance(st, ast.Assign) and len(st.targets) == 1 and isinstance(st.targets[0], ast.Name):
+            env[st.targets[0].id] = b(st.value)
+        elif isinstance(st, ast.Return):
+            ret = b(st.value)
+        else:
+            raise Untranslatable(f"unexpected statement `{ast.unparse(st)[:50]}`")
+    if ret is None:
+        raise Untranslatable("no return")
+    return f"def verify_fft_dtype_possible (is_complex64_dtype is_float32_dtype all_pow2 : Bool) : Bool :=\n  {ret}\n"
+
+
+def _is_pow2(fn: ast.FunctionDef) -> str:
+    body = [s for s in fn.body if not _is_docstring(s)]
+    if len(body) != 1 or not isinstance(body[0], ast.Return):
+        raise Untranslatable("unexpected body of is_power_of_two")
+    arg = fn.args.args[0].arg
+
+    def e(n) -> str:
+        if isinstance(n, ast.Name) and n.id == arg:
+            return "number"
+        if isinstance(n, ast.Constant) and isinstance(n.value, int) and not isinstance(n.value, bool) and n.value >= 0:
+            return str(n.value)
+        if isinstance(n, ast.BinOp) and isinstance(n.op, ast.BitAnd):
+            return f"({e(n.left)} &&& {e(n.right)})"
+        if isinstance(n, ast.BinOp) and isinstance(n.op, ast.Sub):
+            return f"({e(n.left)} - {e(n.right)})"
+        raise Untranslatable(f"expression `{ast.unparse(n)}`")
+
+    def b(n) -> str:
+        if isinstance(n, ast.BoolOp):
+            op = " && " if isinstance(n.op, ast.And) else " || "
+            return "(" + op.join(b(v) for v in n.values) + ")"
+        if isinstance(n, ast.Compare) and len(n.ops) == 1 and isinstance(n.ops[0], (ast.Eq, ast.NotEq)):
+            return f"({e(n.left)} {'==' if isinstance(n.ops[0], ast.Eq) else '!='} {e(n.comparators[0])})"
+        raise Untranslatable(f"boolean expression `{ast.unparse(n)}`")
+    return f"def is_power_of_two (number : Nat) : Bool :=\n  {b(body[0].value)}\n"
 
 
 EXTRA["C01"] = _c01_extra
